@@ -138,17 +138,17 @@ REGISTRY = {
         "trusted_base": COMMON_TRUST, "assumptions": [EXTERNAL, "actual rayon scheduling and DashMap interleavings are sampled by the matrix, not proved"],
     },
     "C06": {
-        "level": "proof", "modules": ["SkaModel.Props.C06"], "gen": ["C06"],
+        "level": "proof", "modules": ["SkaModel.Props.C06"], "gen": ["C06"], "cli": [cli.make_hist_cli("C06", 12, 150)],
         "rule": "random tables (1-12 samples, 0-13 rows, bases/gaps/ambiguity codes at several densities) x align observers over all four site filters, all flag combinations, thresholds 0..n, run through generic_modes::align with save/reload; non-trivial = distinct case lines with at least one emitted column",
         "trusted_base": COMMON_TRUST, "assumptions": [EXTERNAL, "the float expression ceil(n*min_freq) is glue: thresholds are passed as min_freq=(t-1/2)/n"],
     },
     "C07": {
-        "level": "proof", "modules": ["SkaModel.Props.C07"], "gen": ["C07"],
+        "level": "proof", "modules": ["SkaModel.Props.C07"], "gen": ["C07"], "cli": [cli.make_hist_cli("C07", 12, 150)],
         "rule": "start table merged with 1-3 further tables (shared and private k-mers, 1-3 samples each, nested via reload), incl. refused merges (other k / strand), k across the 64/128-bit boundary; non-trivial = distinct case lines whose merge succeeded",
         "trusted_base": COMMON_TRUST, "assumptions": [EXTERNAL],
     },
     "C08": {
-        "level": "proof", "modules": ["SkaModel.Props.C08"], "gen": ["C08"],
+        "level": "proof", "modules": ["SkaModel.Props.C08"], "gen": ["C08"], "cli": [cli.make_hist_cli("C08", 16, 200)],
         "rule": "tables of 2-8 samples; delete sets: first, last, adjacent block, alternating, random subset, shuffled order, all (refused), unknown (refused), partly unknown (refused), none (refused); non-trivial = accepted deletions",
         "trusted_base": COMMON_TRUST, "assumptions": [EXTERNAL],
     },
@@ -186,17 +186,17 @@ REGISTRY = {
         "assumptions": [EXTERNAL, "IEEE-754 evaluation of every f64 expression, libm::lgamma and the argmin BFGS fit are outside the model: formulas are compared numerically with tolerance, the fitted (w0, c) are taken from the code"],
     },
     "C10": {
-        "level": "proof", "modules": ["SkaModel.Props.C10"], "gen": ["C10"],
+        "level": "proof", "modules": ["SkaModel.Props.C10"], "gen": ["C10"], "cli": [cli.make_hist_cli("C10", 14, 200)],
         "rule": "random histories (length 1-8) over merge, delete, weed, reverse weed, frequency/constant/ambiguity filtering with and without --filter-ambig-as-missing/--ambig-mask, reload; every step through generic_modes with save+load; observers nk, 3 aligns, distance on the final file; non-trivial = distinct histories that ran to the end",
         "trusted_base": COMMON_TRUST, "assumptions": [EXTERNAL],
     },
     "C13": {
-        "level": "proof", "modules": ["SkaModel.Props.C13"], "gen": ["C13"],
+        "level": "proof", "modules": ["SkaModel.Props.C13"], "gen": ["C13"], "cli": [cli.make_hist_cli("C13", 12, 150)],
         "rule": "tables x weed record sets that hit a random subset of rows on either strand (with N, noise, several records), forward, reverse and twice; non-trivial = distinct case lines where weeding removed or kept at least one k-mer",
         "trusted_base": COMMON_TRUST, "assumptions": [EXTERNAL],
     },
     "C14": {
-        "level": "proof", "modules": ["SkaModel.Props.C14"], "gen": ["C14"],
+        "level": "proof", "modules": ["SkaModel.Props.C14"], "gen": ["C14"], "cli": [cli.make_hist_cli("C14", 10, 120)],
         "rule": "tables of 2-12 samples (unambiguous, 1 in 4 with ambiguity codes for the model comparison), any missingness; distance with thresholds 0..n, with and without --allow-ambiguous, plus MergeSkaArray::distance with a given constant; integers exact (36 x distance), proportions to 2e-5 / 2e-9; non-trivial = all",
         "trusted_base": COMMON_TRUST, "assumptions": [EXTERNAL, "f64 evaluation and the printed rounding (.2/.5) are outside the model; compared with tolerance"],
     },
